@@ -26,7 +26,7 @@ func init() {
 		Assumptions: []string{"Go crypto/ecdsa and math/big are correct", "RFC 9053 section 2.1 as transcribed in refcose.ECDSASigBytes"},
 		Real:        []string{"github.com/veraison/go-cose (ecdsa.go, signer.go, verifier.go)", "Go crypto/ecdsa"},
 		Stubs:       []string{"HSM / KMS behind crypto.Signer (chosen or mangled ASN.1)", "entropy source (seeded, searched)", "format-translating middlebox"},
-		QuickRuns:   8000, ThoroughRuns: 300000,
+		QuickRuns:   40000, ThoroughRuns: 600000,
 	}
 }
 
